@@ -25,6 +25,7 @@ FLOORS = {"memo_writes": 1}
 EXPLANATION += ' a (added): the key function renders every fact value injectively - the only uses of a `Value` on the way into the key are its Debug rendering, hashing or serialising the value itself; to_number/to_string/Display style conversions conflate Integer(5), Number(5.0) and String("5").'
 EXPLANATION += ' a (added): the verdict depends on the configuration, which is not in the key: every &mut self method of BackwardEngine that stores the configuration or a verdict-relevant part of it (everything but max_solutions) discards the goal manager / its cache on every path.'
 EXPLANATION += ' a (added): the query part of the memo key is the query text, not a projection of the parsed Goal (which drops a leading NOT into a flag).'
+EXPLANATION += ' a (added): the key function does not combine per-entry hashes with a commutative bit operator (name and value must stay bound, order fixed by sorting).'
 
 BE = "backward::backward_engine::BackwardEngine"
 GM = "backward::goal::GoalManager"
@@ -153,6 +154,15 @@ INJECTIVE_USES = ("Argument::new_debug", "Clone::clone", "Deref::deref", "Borrow
 def _key_injective(P, R, kf):
     seen_value = 0
     bad = []
+    # entries must be bound together (name with value) and combined in an order-sensitive way over a sorted sequence: hashing
+    # name and value separately and folding with a commutative operator (^, +) gives {a:1, b:2} and {a:2, b:1} the same digest
+    for g in [kf] + list(P.closures_of(kf)):
+        for b_ in sorted(g.normal_blocks()):
+            for st_ in g.stmts(b_):
+                if st_[2] == "=" and st_[4][0] == "bin" and st_[4][1] in ("BitXor", "BitOr", "BitAnd"):
+                    R.violate("a", "memo-key-commutative-fold:%s" % kf.short_name,
+                              "the memo key function %s combines per-entry hashes with %s (line %d): the combination does not bind a value to its name nor to a position, so two fact sets that merely trade values between names share a key and the second query is answered with the first one's verdict" % (kf.short_name, st_[4][1], st_[0]), g, st_[0])
+                    return
     for g in [kf] + list(P.closures_of(kf)):
         for c in g.calls():
             if c.bb not in g.normal_blocks():
